@@ -251,6 +251,10 @@ def order_culprit(kt: Ty, a, b) -> str:
             if G.cmp_values(t.left(), a[1], b[1]) != 0:
                 t, a, b = t.left(), a[1], b[1]
             else:
+                if a[1] != b[1]:
+                    # equal values written differently (one signature as sig.. / edsig.. / spsig1.. / p2sig..)
+                    kinds = key_kinds(t.left(), a[1]) + key_kinds(t.left(), b[1])
+                    return 'pair+signature-notation:' + '+'.join(sorted(set(kinds)))
                 t, a, b = t.right(), a[2], b[2]
         elif p == 'option':
             if a[0] != b[0] or a[0] == 'None':
